@@ -53,6 +53,7 @@ def pitStep (σ : Sem V) (ms : List (List Bool)) (inp : ℕ → List V) (vp : Li
   | .flat s m => ((gv vp s).map fun v => (List.range m).map fun p => σ.sp n p v).flatten
   | .reuse s o _ _ _ =>   -- the layer of node `o` (its weights, bias, BatchNorm) applied to `s`
       maskedLayer (fun co => σ.post o co (σ.b o co + mix (σ.L o co) 0 (gv vp s))) 0 (gm ms n)
+  | .reuseDw s o _ _ => maskedDw (fun c v => σ.post o c (σ.b o c + σ.D o c v)) 0 (gm ms n) (gv vp s)
   | .output s => gv vp s
 
 /-- value of node `x.2` of the exported network -/
@@ -82,6 +83,9 @@ def expStep (σ : Sem V) (ms : List (List Bool)) (inp : ℕ → List V) (ve : Li
   | .reuse s o ls _ _ =>  -- the *one* exported layer of node `o`: sliced by the masks of `o` and of its input `ls`
       (compress (gm ms o) (idxFrom 0 (gm ms o).length)).map fun co =>
         σ.post o co (σ.b o co + mixIdx (σ.L o co) (compress (gm ms ls) (idxFrom 0 (gm ms ls).length)) (gv ve s))
+  | .reuseDw s o _ _ =>   -- the one exported depthwise layer of node `o`
+      List.zipWith (fun c v => σ.post o c (σ.b o c + σ.D o c v))
+        (compress (gm ms o) (idxFrom 0 (gm ms o).length)) (gv ve s)
   | .output s => gv ve s
 
 def allTrue (m : List Bool) : Prop := m = List.replicate m.length true
@@ -104,6 +108,7 @@ def Coherent (σ : Sem V) (ms : List (List Bool)) (inp : ℕ → List V) (x : Op
   | .cat ss => (∀ s ∈ ss, s < n) ∧ gm ms n = (ss.map (gm ms)).flatten
   | .flat s m => s < n ∧ gm ms n = expand (gm ms s) m ∧ ∀ p, σ.sp n p 0 = 0
   | .reuse s o ls _ _ => s < n ∧ gm ms n = gm ms o ∧ gm ms s = gm ms ls ∧ ∀ co ci, σ.L o co ci 0 = 0
+  | .reuseDw s o _ _ => s < n ∧ gm ms n = gm ms s ∧ gm ms n = gm ms o
   | .output s => s < n ∧ gm ms n = gm ms s
 
 /-- invariant tying the two runs together on the first `k` nodes -/
@@ -306,6 +311,14 @@ theorem step_inv (σ : Sem V) (ms : List (List Bool)) (inp : ℕ → List V) (vp
       apply List.map_congr_left
       intro co _
       rw [hve, mix_compress (σ.L o co) (hL co) _ _ 0 hlen hdz, ← hms, hlen]
+  | reuseDw s o ls a =>
+    obtain ⟨hs, hm, hmo⟩ := hok
+    obtain ⟨hlen, hdz, hve⟩ := hall s hs
+    apply key
+    · simp only [pitStep]; rw [length_maskedDw _ _ _ _ (by rw [hm]; exact hlen)]
+    · simp only [pitStep]; exact deadZero_maskedDw _ _ _ 0
+    · simp only [expStep, pitStep]
+      rw [compress_maskedDw _ _ _ 0 (by rw [hm]; exact hlen), hve, ← hmo, hm]
   | output s =>
     obtain ⟨hs, hm⟩ := hok
     obtain ⟨hlen, hdz, hve⟩ := hall s hs
